@@ -57,6 +57,15 @@ def normal_cdf(x, mu=2.9, sigma=1.6):
     return np.array([0.5 * (1.0 + math.erf((xi - mu) / (sigma * math.sqrt(2.0)))) for xi in np.atleast_1d(x)])
 
 
+def normal_counts(x, A=40.0, mu=2.9, sigma=1.6):
+    """count density (for HistFit(density=False)): the model carries its own normalisation parameter"""
+    return A * np.exp(-0.5 * ((x - mu) / sigma) ** 2) / np.sqrt(2.0 * np.pi * sigma**2)
+
+
+def normal_counts_cdf(x, A=40.0, mu=2.9, sigma=1.6):
+    return A * np.array([0.5 * (1.0 + math.erf((xi - mu) / (sigma * math.sqrt(2.0)))) for xi in np.atleast_1d(x)])
+
+
 def linoff(x, a=0.8, b=1.5):
     return a * x + b + 0.7
 
